@@ -393,7 +393,7 @@ class C03Prop(HistProp):
         if not qs or nodes is None or edges is None:
             return []
         directed = c["spec"][0]
-        weighted = bool(qs[0][2][-1])
+        weighted = bool(qs[0][2][1] if qs[0][1] == "alg_sssp" else qs[0][2][0])
         w = {}
         for e in edges:
             u, v, wf_, wt = e[0], e[1], e[2], e[3]
